@@ -38,3 +38,5 @@ func debugDump(p *Prog) {
 		}
 	}
 }
+
+func debugOn() bool { return os.Getenv("KAIDEBUG") != "" }
